@@ -176,9 +176,11 @@ def pair(sx, setting, api, nmsg):
         sent = []
         for k in range(nmsg):
             pl = sx.bytes("m%s%d" % (snd.who, k), 2) + bytes([97 + k]) * k
+            if api == "empty" and k != 1:
+                pl = b""
             p = snd.p
             dnc = (api == "donotcompress") or (api == "mixed" and k == 1)
-            if api in ("message", "donotcompress", "mixed"):
+            if api in ("message", "donotcompress", "mixed", "empty"):
                 p.sendMessage(pl, isBinary=True, doNotCompress=dnc)
             elif api == "fragmented":
                 p.sendMessage(pl, isBinary=True, fragmentSize=3)
@@ -347,7 +349,9 @@ def pair_bzip2(sx, setting, api, nmsg):
         sent = []
         for k in range(nmsg):
             pl = sx.bytes("m%s%d" % (snd.who, k), 2) + bytes([97 + k]) * k
-            if api == "message":
+            if api == "empty" and k != 1:
+                pl = b""
+            if api in ("message", "empty"):
                 snd.p.sendMessage(pl, isBinary=True)
             elif api == "fragmented":
                 snd.p.sendMessage(pl, isBinary=True, fragmentSize=3)
@@ -509,10 +513,10 @@ def units(tier):
                 for w in wbs:
                     U.append(("lattice/%d%d%d/%d" % (a, b, c, w), "lattice", dict(o_acc_nct=a, o_acc_mwb=b, o_req_nct=c, o_req_mwb=w), dict(weight=5)))
     for si in range(len(SETTINGS)):
-        for api in ("message", "fragmented", "streaming", "prepared", "donotcompress", "mixed"):
+        for api in ("message", "fragmented", "streaming", "prepared", "donotcompress", "mixed", "empty"):
             U.append(("pair/%d/%s" % (si, api), "pair", dict(setting=si, api=api, nmsg=3 if q else 4), dict(weight=3)))
     for si in range(len(BZ_SETTINGS)):
-        for api in ("message", "fragmented", "streaming"):
+        for api in ("message", "fragmented", "streaming", "empty"):
             U.append(("bzip2/%d/%s" % (si, api), "pair_bzip2", dict(setting=si, api=api, nmsg=2 if q else 3), dict(weight=3)))
     for si in (0, 1, 2, 3):
         U.append(("refusedsend/%d" % si, "refused_send", dict(setting=si)))
